@@ -1049,6 +1049,12 @@ class Interp:
         for k in dead:
             del st.facts[k]
 
+    def is_pure_local_app(self, v):
+        # outcomes of pure local functions are functions of their arguments: re-evaluating the same
+        # call yields the same outcome, so what is known about it stays valid for the whole path
+        t = VAL[v]
+        return t[0] == 'sym' and t[1] == 'app' and t[2].startswith('local::')
+
     def gc_facts(self, st, extra):
         if not st.facts:
             return
